@@ -195,9 +195,37 @@ class Orig:
             return None, "ref-" + e.kind
         self.ort_ran += 1
         d = runeq.compare(o, r, loose=10.0)
+        if self._seeded_random():
+            # Seeded Dropout in training mode: the runtimes draw different masks (and ORT's generator advances with every
+            # run of a session), so values are only comparable up to resampling (see ResampleOuts).
+            return ResampleOuts(o), None
         if d:
             return None, "disagree"
         return o, None
+
+    def _seeded_random(self):
+        """True iff the model's only random nodes are main-graph Dropout nodes with an explicit seed and a training_mode
+        input whose outputs are graph outputs and feed no other node (so 'element is 0 or x/(1-r)' holds for them)."""
+        if not hasattr(self, "_seeded"):
+            g = self.model.graph
+            ok = []
+            consumed = {i for n in g.node for i in n.input}
+
+            def walk(nodes, top):
+                for n in nodes:
+                    if n.op_type.startswith("Random") or n.op_type in ("Multinomial", "Bernoulli"):
+                        ok.append(False)
+                    if n.op_type == "Dropout" and len(n.input) > 2 and n.input[2]:
+                        ok.append(top and any(a.name == "seed" for a in n.attribute)
+                                  and not any(o in consumed for o in n.output))
+                    for a in n.attribute:
+                        if a.type == onnx.AttributeProto.GRAPH:
+                            walk(a.g.node, False)
+            walk(g.node, True)
+            for f in self.model.functions:
+                walk(f.node, False)
+            self._seeded = bool(ok) and all(ok)
+        return self._seeded
 
 
 def op_sig(model):
@@ -405,7 +433,31 @@ def _exc_class(e):
     return f"{type(cur).__name__}@{where}"
 
 
+class ResampleOuts(list):
+    """Outputs of an original whose only randomness is seeded training-mode Dropout feeding graph outputs directly.  The
+    optimizer may legitimately re-draw the mask (it folds a constant Dropout through another RNG; ORT's generator advances
+    per run), so values are compared up to resampling: every float element is either equal or one of the two is 0 (a
+    Dropout output element is 0 or x/(1-r)); bool outputs (masks) are not constrained.  Returning x itself where the
+    original returned x/(1-r) is caught."""
+
+
 def compare_runs(exp, got):
+    if isinstance(exp, ResampleOuts):
+        if len(exp) != len(got):
+            return f"output count {len(exp)} vs {len(got)}"
+        for i, (a, b) in enumerate(zip(exp, got)):
+            a, b = np.asarray(a), np.asarray(b)
+            if a.dtype != b.dtype or a.shape != b.shape:
+                return f"output {i}: dtype/shape {a.dtype}{a.shape} vs {b.dtype}{b.shape}"
+            if a.dtype.kind != "f":
+                continue
+            af, bf = a.astype(np.float64), b.astype(np.float64)
+            ok = np.isclose(af, bf, rtol=1e-5, atol=1e-6, equal_nan=True) | (af == 0) | (bf == 0)
+            if not ok.all():
+                k = np.argwhere(~ok)[0]
+                return (f"output {i}: not a resampling of the original (element {tuple(k)}: {af[tuple(k)]!r} vs "
+                        f"{bf[tuple(k)]!r}, both non-zero; {int((~ok).sum())}/{af.size} elements)")
+        return None
     return runeq.compare(exp, got)
 
 
